@@ -63,6 +63,35 @@ class ParserModel(object):
         return self._get("eam_density_fs")
 
 
+class RealModel(object):
+    """the package's own ConfigParser on a model file over LABELS (standard or A->B density keys), evaluated on the
+    configparser / pyparsing models: .I interpreter, .cp the parser object, .views name -> [(species key, row)] read from
+    the unfiltered parser"""
+    NAMES = {False: ("pair", "eam_embed", "eam_density"), True: ("pair", "eam_embed", "eam_density_fs")}
+
+    def __init__(self, P, fs):
+        from .c14 import parse
+        out = parse(P, _file_text(lambda key: True)[fs])
+        if out[0] != "ok":
+            raise AnalysisError("the model file of the C13 scenarios is refused by the parser: %r" % (out[1],))
+        self.I, self.cp, self.fs = out[3], out[4], fs
+        self.views = {}
+        for name in self.NAMES[fs]:
+            rows = self.I.as_iterable(self.I.getattr(self.cp, name))
+            if not isinstance(rows, ListV):
+                raise AnalysisError("ConfigParser.%s is not a concrete list" % name)
+            self.views[name] = [(self.key_of(r), r) for r in rows.items]
+
+    def key_of(self, row):
+        sp = self.I.getattr(row, "species")
+        if isinstance(sp, Const):
+            return (sp.v,)
+        vals = getattr(sp, "values", None) or getattr(sp, "items", None)
+        if vals is None or not all(isinstance(v, Const) for v in vals):
+            raise AnalysisError("species of a parsed entry is not concrete: %r" % (sp,))
+        return tuple(v.v for v in vals)
+
+
 def keep(key, species, exclude):
     if exclude:
         return not any(s in species for s in key)
@@ -95,7 +124,7 @@ def run(chk):
     chk.attempt("O4b", lambda: builder_isolation(chk, P))
     chk.attempt("O5", lambda: cli(chk, P))
     chk.rule("C13.O6", "end to end: builders on the filtered file = builders on the hand-edited file (every species set, both modes, "
-                       "standard and Finnis-Sinclair keys)", 30)
+                       "standard and Finnis-Sinclair keys)", 12)
     chk.attempt("O6", lambda: end_to_end(chk, P, stats))
     chk.states = stats["cases"]
     chk.exhaustive = True
@@ -113,19 +142,23 @@ def view_result(I, view, name):
 def filters(chk, P, stats):
     cls = P.cls(FCP, "FilteredConfigParser")
     site = cls.site_of("_check_tuple")
+    models = {False: RealModel(P, False), True: RealModel(P, True)}      # one parsed file of each kind; every filter is a view of it
     for exclude in (False, True):
         for S in subsets():
-            I = F.make_interp(P)
-            model = ParserModel(I, P)
-            kw = {"exclude" if exclude else "include": ListV([Const(s) for s in S], "list")}
-            view = I.instantiate(cls, [PyObjV(model)], kw, None)
             bad = []
-            for name, rows in model.views.items():
-                got = view_result(I, view, name)
-                want = [row.key() for key, row in rows if keep(key, S, exclude)]
-                stats["cases"] += len(rows)
-                if got != want:
-                    bad.append("%s: kept %d entries, hand-edited file has %d" % (name, len(got), len(want)))
+            for fs in (False, True):
+                model = models[fs]
+                I = model.I
+                kw = {"exclude" if exclude else "include": ListV([Const(s) for s in S], "list")}
+                view = I.instantiate(cls, [model.cp], kw, None)
+                for name, rows in model.views.items():
+                    if fs and name != "eam_density_fs":
+                        continue
+                    got = view_result(I, view, name)
+                    want = [row.key() for key, row in rows if keep(key, S, exclude)]
+                    stats["cases"] += len(rows)
+                    if got != want:
+                        bad.append("%s: kept %d entries, hand-edited file has %d" % (name, len(got), len(want)))
             mode = "exclude" if exclude else "include"
             chk.ob("C13.O1", "%s=%s: pair, eam_embed, eam_density, eam_density_fs keep exactly the surviving entries" % (mode, S),
                    not bad, site=site, found="; ".join(bad) if bad else None, expect="entries of the hand-edited file, order kept",
@@ -136,14 +169,32 @@ def exhaustive(chk, P):
     cp = P.cls(CP, "ConfigParser")
     fcp = P.cls(FCP, "FilteredConfigParser")
     # species-keyed views: properties of ConfigParser that return parsed parameter sections
+    # species-keyed views: public properties / methods without required arguments of ConfigParser that, on a model file, give
+    # rows carrying a `species` field (found by reading them on the parsed model files, not by the names of private helpers)
     keyed = []
-    for name, fi in cp.methods.items():
-        if name.startswith("_") or name in ("parse_pair_like",):
-            continue
-        calls = [n.func.attr for n in ast.walk(fi.node) if isinstance(n, ast.Call) and isinstance(n.func, ast.Attribute)]
-        if "_parse_params_section" in calls or "parse_pair_like" in calls:
-            keyed.append(name)
-    if len(keyed) < 2:
+    for fs in (False, True):
+        m = RealModel(P, fs)
+        for name, fi in cp.methods.items():
+            if name.startswith("_") or name in keyed:
+                continue
+            nreq = len(fi.node.args.args) - 1 - len(fi.node.args.defaults)
+            if nreq > 0:
+                continue
+            try:
+                v = m.I.getattr(m.cp, name)
+                if not fi.is_property:
+                    v = m.I.call(v, [], {})
+                rows = m.I.as_iterable(v)
+            except (RaiseSignal, AnalysisError):
+                continue
+            if isinstance(rows, ListV) and rows.items and all(hasattr(r_, "fields") or hasattr(r_, "values") for r_ in rows.items):
+                try:
+                    m.I.getattr(rows.items[0], "species")
+                except (RaiseSignal, AnalysisError):
+                    continue
+                keyed.append(name)
+    keyed = [k for k in keyed if k != "species"]
+    if len(keyed) < 4:
         chk.error("species-keyed views of ConfigParser are not recognised: %s" % sorted(keyed))
     for name in sorted(keyed):
         ov = name in fcp.methods and fcp.methods[name].is_property == cp.methods[name].is_property
@@ -210,9 +261,9 @@ def _section_constants(m, call, sec, depth=3):
 
 def isolation(chk, P):
     cls = P.cls(FCP, "FilteredConfigParser")
-    I = F.make_interp(P)
-    model = ParserModel(I, P)
-    wrapped = PyObjV(model)
+    model = RealModel(P, True)
+    I = model.I
+    wrapped = model.cp
     site = cls.site_of("__init__")
     specs = [("include", [LABELS[0], LABELS[1]]), ("include", [LABELS[2]]), ("exclude", [LABELS[0]])]
     views = []
@@ -271,10 +322,10 @@ def builder_isolation(chk, P):
         site = P.cls(E.BUILDER_MOD, bname).site_of("eam_potentials")
         alone = []
         for i in range(len(specs)):
-            J = F.make_interp(P)
-            alone.append(species_of(J, bname, view_of(J, PyObjV(ParserModel(J, P)), i)))
-        I = F.make_interp(P)
-        wrapped = PyObjV(ParserModel(I, P))
+            m1 = RealModel(P, bname.endswith("_FS"))
+            alone.append(species_of(m1.I, bname, view_of(m1.I, m1.cp, i)))
+        mh = RealModel(P, bname.endswith("_FS"))
+        I, wrapped = mh.I, mh.cp
         for i in range(len(specs)):
             got = species_of(I, bname, view_of(I, wrapped, i))
             chk.ob("C13.O4", "%s on view %d (%s=%s), built after the views before it from the same parsed file, gives the model it gives when "
@@ -363,9 +414,11 @@ def end_to_end(chk, P, stats):
     modes, standard and Finnis-Sinclair density keys"""
     site = P.cls(FCP, "FilteredConfigParser").site()
     full = _file_text(lambda key: True)
+    # which view each builder reads is what this rule adds to O1 (all sets, all views): in the quick tier a few sets are enough
+    sets = subsets() if chk.tier == "thorough" else [[], [LABELS[0]], [LABELS[1], LABELS[2]], [LABELS[0], UNKNOWN]]
     for exclude in (False, True):
         mode = "exclude" if exclude else "include"
-        for S in subsets():
+        for S in sets:
             edited = _file_text(lambda key: keep(key, S, exclude))
             for fs in (False, True):
                 got = _built_models(P, full[fs], fs, {mode: S})
